@@ -26,7 +26,8 @@ def write_cfg(ctx, name, npeers, ncids, ops, changes, downs, check=True):
              "CONSTANT MaxOps = %d" % ops, "CONSTANT MaxChanges = %d" % changes, "CONSTANT MaxDowns = %d" % downs]
     if check:
         lines += ["INVARIANT TypeOK", "INVARIANT Agreement", "INVARIANT LastPeerStays", "INVARIANT ReadyImpliesSynced",
-                  "INVARIANT RemovedStops", "PROPERTY NoOpHarmless", "PROPERTY PinsetKept"]
+                  "INVARIANT RemovedStops", "PROPERTY NoOpHarmless", "PROPERTY PinsetKept",
+                  "PROPERTY UnackedFaultyNotCommitted"]
     fn = "RaftMembership_x_%s.cfg" % name
     with open(os.path.join(ctx.specdir(), fn), "w") as f:
         f.write("\n".join(lines) + "\n")
@@ -62,16 +63,26 @@ def kinds(steps):
 
 
 def scripts_from_graph(ctx, rng, cfg, n, max_len, want=None, prop="C17"):
-    dot = os.path.join(ctx.specdir(), cfg + ".dot")
-    ctx.tlc("RaftMembership.tla", cfg, workers=4, timeout=1800, dump_dot=dot, count=False)
-    g = tla.read_dot(dot)
-    tours = tla.edge_tours(g, max_len=max_len, rng=rng)
-    nedges = sum(len(v) for v in g.edges.values())
-    ctx.log("membership graph: %d nodes, %d edges, %d tours (all transitions within %d steps)" % (len(g._raw), nedges, len(tours), max_len))
-    ctx.extra["membership_graph"] = {"nodes": len(g._raw), "edges": nedges, "tours": len(tours)}
+    cache = getattr(ctx, "_member_tours", None)
+    if cache is None:
+        cache = ctx._member_tours = {}
+    if (cfg, max_len) not in cache:
+        dot = os.path.join(ctx.specdir(), cfg + ".dot")
+        ctx.tlc("RaftMembership.tla", cfg, workers=4, timeout=1800, dump_dot=dot, count=False)
+        g = tla.read_dot(dot)
+        tours = tla.edge_tours(g, max_len=max_len, rng=rng)
+        nedges = sum(len(v) for v in g.edges.values())
+        ctx.log("membership graph: %d nodes, %d edges, %d tours (all transitions within %d steps)" % (len(g._raw), nedges, len(tours), max_len))
+        ctx.extra["membership_graph"] = {"nodes": len(g._raw), "edges": nedges, "tours": len(tours)}
+        cache[(cfg, max_len)] = (g, tours)
+    g, tours = cache[(cfg, max_len)]
     cands = []
     for t in tours:
         steps = [step_of(g.state(nid)) for (_, nid) in t]
+        for k, st in enumerate(steps):
+            if st["out"] == "maybe":      # the real outcome decides there: the script ends
+                steps = steps[:k + 1]
+                break
         if len(steps) < 5:
             continue
         if want and not want(steps):
